@@ -25,13 +25,15 @@ TECHNIQUE = (
 LEVEL_TEXT = (
     "Exhaustive product of announced capabilities (core version none/1/2, tunnelling none/v1/v2, routing, security family, secured-families "
     "DIB absent/empty/{tunnelling}/{routing}/both, device address present/absent, extended or plain search response) x all 32 scan-filter "
-    "flag sets (+ None-valued and name filters) x 7 keyring situations, each run through the real automatic start; plus generated "
-    "sequences of 2-4 gateways with failing connection attempts. The single-gateway product is completed (exhaustive); sequences are sampled."
+    "flag sets (+ None-valued and name filters) x 7 keyring situations, each run through the real automatic start; Core-V2 gateways "
+    "additionally answer both search requests (legacy answer without secured-families DIB before the extended one, and after it with the "
+    "secure attempt failing for lack of credentials); plus generated sequences of 2-4 gateways (single or double answers) with failing "
+    "connection attempts. The single-gateway product is completed (exhaustive); sequences are sampled."
 )
 LEVEL_NOTE = (
     "Trusted: CPython, asyncio. GatewayScanner.async_scan is replaced (class level, restored) by a generator that feeds real parsed "
     "SearchResponse(Extended) frames to the real _response_rec_callback and yields what it queued; no socket is opened. Ground truth for "
-    "'announces the service as secured' is the generated secured-families DIB, not the parsed descriptor. Judged: any _start_tunnelling_udp/"
+    "'announces the service as secured' is the generated secured-families DIB (of the extended answer), not the parsed descriptor. Judged: any _start_tunnelling_udp/"
     "_start_tunnelling_tcp call for a gateway announcing secured tunnelling, any _start_routing call for a gateway announcing secured "
     "routing; GatewayScanFilter.match (name=None) against the predicate 'an enabled method is supported and its security requirement "
     "agrees'. Not judged (recorded): a gateway that passes the filter but for which no start method exists (reported as connected without "
@@ -79,8 +81,23 @@ class Caps:
     def r_secured(self):
         return self.secured is not None and "R" in self.secured
 
-    def frame(self, ip: str):
-        body = (SearchResponseExtended if self.extended else SearchResponse)(control_endpoint=HPAI(ip, 3671))
+    def modes(self):
+        """Response multisets this gateway can show. A Core-V2 device answers both search requests xknx sends; the legacy answer
+        carries no secured-families DIB. Dual answers are only generated for Core-V2 (Core-V1 devices know neither the extended
+        search nor secure services)."""
+        if not self.extended:
+            return ("legacy",)
+        if self.core >= 2:
+            return ("ext", "legacy+ext", "ext+legacy")
+        return ("ext",)
+
+    def frames(self, ip: str, mode: str):
+        """[(kind, parsed frame)] in arrival order for a response mode."""
+        return [(kind, self.frame(ip, extended=(kind == "ext"))) for kind in mode.split("+")]
+
+    def frame(self, ip: str, extended=None):
+        extended = self.extended if extended is None else extended
+        body = (SearchResponseExtended if extended else SearchResponse)(control_endpoint=HPAI(ip, 3671))
         dibs = []
         if self.has_ia:
             dev = DIBDeviceInformation()
@@ -101,7 +118,7 @@ class Caps:
         if self.security:
             supp.families.append(fam(DIBServiceFamily.SECURITY, self.security))
         dibs.append(supp)
-        if self.secured is not None:
+        if self.secured is not None and extended:
             sec = DIBSecuredServiceFamilies()
             sec.families.append(DIBSecuredServiceFamilies.Family(DIBServiceFamily.DEVICE_MANAGEMENT, 1))
             if "T" in self.secured:
@@ -154,7 +171,7 @@ class Scenario:
     """What the fake network offers during one automatic start."""
 
     def __init__(self):
-        self.gateways: list[tuple[Caps, str, object]] = []   # (caps, ip, parsed frame)
+        self.gateways: list[tuple[Caps, str, list]] = []     # (caps, ip, [(kind, parsed frame)] in arrival order)
         self.outcomes: dict[str, str] = {}                   # ip -> "ok" | "comm" | "secure"
         self.log: list[tuple] = []
         self.current: int | None = None
@@ -170,15 +187,19 @@ class _FakeUDP:
 async def fake_async_scan(self):
     """Replacement of GatewayScanner.async_scan: real response handling and filtering, no network."""
     queue: asyncio.Queue = asyncio.Queue()
-    for pos, (_caps, ip, frame) in enumerate(SCN.gateways):
-        self._response_rec_callback(frame, HPAI(ip, 3671), _FakeUDP, interface="veth0", queue=queue)
-        if queue.empty():
-            SCN.log.append(("not_offered", pos))
-        while not queue.empty():
-            gateway = queue.get_nowait()
-            SCN.current = pos
-            SCN.log.append(("offered", pos, gateway))
-            yield gateway
+    # all answers are received (in the scripted order) while the consumer is busy with the first one, as on a real network
+    arrivals = []
+    for pos, (_caps, ip, frames) in enumerate(SCN.gateways):
+        for kind, frame in frames:
+            self._response_rec_callback(frame, HPAI(ip, 3671), _FakeUDP, interface="veth0", queue=queue)
+            if queue.empty():
+                SCN.log.append(("not_offered", pos, kind))
+            while not queue.empty():
+                arrivals.append((pos, kind, queue.get_nowait()))
+    for pos, kind, gateway in arrivals:
+        SCN.current = pos
+        SCN.log.append(("offered", pos, kind))
+        yield gateway
 
 
 def _make_stub(name):
@@ -189,7 +210,7 @@ def _make_stub(name):
         outcome = SCN.outcomes.get(key, "ok")
         if outcome == "comm":
             raise CommunicationError("scripted")
-        if outcome == "secure":
+        if outcome == "secure" or (outcome == "nosec" and "secure" in name):
             raise InvalidSecureConfiguration("scripted")
     stub.__name__ = name
     return stub
@@ -296,7 +317,10 @@ async def run_start(gateways, outcomes, flags, name, keyring_kind, use_default_f
 def judge_log(ctx, log, gateways, flags, name, keyring_kind, outcomes, result):
     """The statement: no unsecured start for a gateway that announces that service as secured."""
     starts = []
+    last_kind = None
     for entry in log:
+        if entry[0] == "offered":
+            last_kind = entry[2]
         if entry[0] != "start":
             continue
         _s, method, pos, ip = entry
@@ -305,7 +329,7 @@ def judge_log(ctx, log, gateways, flags, name, keyring_kind, outcomes, result):
         if pos is None:
             ctx.inconclusive("a start method was called before any gateway was offered")
             continue
-        caps, gw_ip, _frame = gateways[pos]
+        caps, gw_ip, _frames = gateways[pos]
         if ip is not None and ip != gw_ip:
             ctx.violation("start-called-with-address-of-another-gateway",
                           {"method": method, "gateway_ip_used": ip, "gateway_offered": gw_ip},
@@ -315,8 +339,12 @@ def judge_log(ctx, log, gateways, flags, name, keyring_kind, outcomes, result):
         wit = {"gateways": [g[0].as_dict() for g in gateways], "gateway_position": pos, "method": method,
                "filter_flags(tunnelling,tunnelling_tcp,routing,secure_tunnelling,secure_routing)": list(flags), "filter_name": name,
                "keyring": keyring_kind, "outcomes": [outcomes.get(g[1], "ok") for g in gateways], "result": result,
+               "responses": ["+".join(k for k, _f in g[2]) for g in gateways],
+               "descriptor_from": last_kind,
                "caps_key": list(caps.key())}
         detail = f"tunnellingv{caps.tunnelling}-routing{caps.routing}"
+        if last_kind == "legacy" and len(gateways[pos][2]) > 1:
+            detail += "-via-legacy-search-response-of-core-v2-device"
         if method in ("_start_tunnelling_udp", "_start_tunnelling_tcp"):
             ctx.count("unsecured_tunnel_starts_judged")
             if caps.t_secured:
@@ -399,35 +427,48 @@ def check_filter_predicate(ctx, caps_list, frames):
 
 async def single_gateway_product(ctx, caps_list, frames):
     variants = filter_variants()
+    ip = "10.0.0.2"
     for caps in caps_list:
-        gateways = [(caps, "10.0.0.2", frames[caps.index])]
-        for vi, (flags, name) in enumerate(variants):
-            for keyring_kind in KEYRINGS:
-                ctx.ev()
-                result, log = await run_start(gateways, {}, flags, name, keyring_kind)
-                if result.startswith("unexpected"):
-                    ctx.inconclusive(f"automatic start raised {result} for {caps.as_dict()} {flags} {keyring_kind}")
-                    continue
-                ctx.count("automatic_starts")
-                ctx.count("result_" + result)
-                starts = judge_log(ctx, log, gateways, flags, name, keyring_kind, {}, result)
-                offered = any(e[0] == "offered" for e in log)
-                ctx.count("gateway_offered" if offered else "gateway_not_offered")
-                if result == "connected" and not starts:
-                    ctx.count("connected_without_any_start_call_not_judged")
-                # the scanner's use of the filter equals the predicate (keyring 'ia_unknown' aborts before scanning)
-                if name is None and keyring_kind != "ia_unknown":
-                    strict, lenient = ref_filter_match(flags, caps)
-                    skipped_core_v2_plain = (not caps.extended) and caps.core >= 2
-                    if strict == lenient and not skipped_core_v2_plain and offered is not strict:
-                        ctx.violation("scan-offers-gateway-against-filter" if offered else "scan-withholds-gateway-matching-filter",
-                                      {"caps": caps.as_dict(), "flags": list(flags), "keyring": keyring_kind},
-                                      f"scan with filter {flags} {'offered' if offered else 'withheld'} {caps.as_dict()}")
-                ctx.distinct(("single", caps.tunnelling, caps.routing, caps.t_secured, caps.r_secured, caps.has_ia, keyring_kind,
-                              tuple(bool(f) for f in flags), tuple(m for m, _p in starts), result))
-                if caps.index in (70, 200, 333) and vi == 0 and keyring_kind == "none":
-                    ctx.sample({"gateway": caps.as_dict(), "filter": "all enabled", "keyring": keyring_kind,
-                                "start_calls": [m for m, _p in starts], "result": result})
+        for mode in caps.modes():
+            frame_list = [(k, frames[caps.index]) for k in (mode,)] if "+" not in mode else caps.frames(ip, mode)
+            gateways = [(caps, ip, frame_list)]
+            # both answers: "legacy first" with working attempts; "extended first" with the secure attempt failing (no credentials),
+            # so that the automatic start moves on to the next queued descriptor of the same gateway
+            outcomes = {ip: "nosec"} if mode == "ext+legacy" else {}
+            ctx.count("single_gateway_response_mode_" + mode.replace("+", "_then_"))
+            for vi, (flags, name) in enumerate(variants):
+                for keyring_kind in KEYRINGS:
+                    ctx.ev()
+                    result, log = await run_start(gateways, outcomes, flags, name, keyring_kind)
+                    if result.startswith("unexpected"):
+                        ctx.inconclusive(f"automatic start raised {result} for {caps.as_dict()} {mode} {flags} {keyring_kind}")
+                        continue
+                    ctx.count("automatic_starts")
+                    ctx.count("result_" + result)
+                    starts = judge_log(ctx, log, gateways, flags, name, keyring_kind, outcomes, result)
+                    offered_kinds = [e[2] for e in log if e[0] == "offered"]
+                    offered = bool(offered_kinds)
+                    ctx.count("gateway_offered" if offered else "gateway_not_offered")
+                    if len(offered_kinds) > 1:
+                        ctx.count("gateway_offered_twice_not_judged")
+                    if "legacy" in offered_kinds and caps.core >= 2:
+                        ctx.count("legacy_response_of_core_v2_device_offered_not_judged")
+                    if result == "connected" and not starts:
+                        ctx.count("connected_without_any_start_call_not_judged")
+                    # the scanner's use of the filter equals the predicate (keyring 'ia_unknown' aborts before scanning);
+                    # judged on the answer that carries the announcement (single answers only)
+                    if name is None and keyring_kind != "ia_unknown" and "+" not in mode:
+                        strict, lenient = ref_filter_match(flags, caps)
+                        skipped_core_v2_plain = (not caps.extended) and caps.core >= 2
+                        if strict == lenient and not skipped_core_v2_plain and offered is not strict:
+                            ctx.violation("scan-offers-gateway-against-filter" if offered else "scan-withholds-gateway-matching-filter",
+                                          {"caps": caps.as_dict(), "flags": list(flags), "keyring": keyring_kind},
+                                          f"scan with filter {flags} {'offered' if offered else 'withheld'} {caps.as_dict()}")
+                    ctx.distinct(("single", mode, caps.tunnelling, caps.routing, caps.t_secured, caps.r_secured, caps.has_ia, keyring_kind,
+                                  tuple(bool(f) for f in flags), tuple(m for m, _p in starts), result))
+                    if caps.index in (70, 200, 333) and vi == 0 and keyring_kind == "none" and mode in ("ext", "legacy"):
+                        ctx.sample({"gateway": caps.as_dict(), "responses": mode, "filter": "all enabled", "keyring": keyring_kind,
+                                    "start_calls": [m for m, _p in starts], "result": result})
 
 
 async def gateway_sequences(ctx, caps_list, frames_for):
@@ -444,8 +485,11 @@ async def gateway_sequences(ctx, caps_list, frames_for):
         for pos in range(k):
             caps = rng.choice(interesting if rng.random() < 0.85 else caps_list)
             ip = f"10.0.{pos}.2"
-            gateways.append((caps, ip, frames_for(caps, ip)))
-            outcomes[ip] = rng.choice(("comm", "comm", "secure", "ok")) if pos < k - 1 else rng.choice(("ok", "ok", "comm"))
+            mode = rng.choice(caps.modes())
+            gateways.append((caps, ip, frames_for(caps, ip, mode)))
+            if "+" in mode:
+                ctx.count("sequence_gateways_answering_twice")
+            outcomes[ip] = rng.choice(("comm", "comm", "secure", "nosec", "ok")) if pos < k - 1 else rng.choice(("ok", "ok", "nosec", "comm"))
         flags, name = rng.choice(variants) if rng.random() < 0.6 else ((True, True, True, True, True), None)
         keyring_kind = rng.choice(KEYRINGS[:4]) if rng.random() < 0.8 else rng.choice(KEYRINGS)
         ctx.ev()
@@ -461,24 +505,28 @@ async def gateway_sequences(ctx, caps_list, frames_for):
         ctx.distinct(("seq", tuple((m, gateways[p][0].t_secured, gateways[p][0].r_secured) for m, p in starts), result))
         if i < 2:
             ctx.sample({"gateways": [g[0].as_dict() for g in gateways], "outcomes": [outcomes[g[1]] for g in gateways],
+                        "responses": ["+".join(k for k, _f in g[2]) for g in gateways],
                         "start_calls": [[m, p] for m, p in starts], "result": result})
 
 
 def run(ctx):
     ctx.rule = ("exhaustive: 432 announced-capability sets x 37 scan filters x 7 keyring situations through the real automatic start "
-                "(single gateway), the same capability sets x filters through GatewayScanFilter.match; sampled: sequences of 2-4 gateways "
+                "(single gateway; Core-V2 sets also with legacy+extended and extended+legacy answers), the same capability sets x filters "
+                "through GatewayScanFilter.match; sampled: sequences of 2-4 gateways "
                 "with scripted connection failures; distinct = (capabilities relevant to the statement, keyring, filter flags, start calls, result)")
     ctx.require("automatic_starts", "start_calls", "unsecured_tunnel_starts_judged", "unsecured_routing_starts_judged", "secure_starts_seen",
                 "filter_match_judged", "filter_expected_match", "filter_expected_no_match", "gateway_offered", "gateway_not_offered",
-                "automatic_starts_sequences", "sequences_with_attempts_on_several_gateways")
+                "automatic_starts_sequences", "sequences_with_attempts_on_several_gateways",
+                "single_gateway_response_mode_legacy_then_ext", "single_gateway_response_mode_ext_then_legacy",
+                "sequence_gateways_answering_twice")
     caps_list = all_caps()
     frames = {c.index: c.frame("10.0.0.2") for c in caps_list}
     frame_cache: dict = {}
 
-    def frames_for(caps, ip):
-        key = (caps.index, ip)
+    def frames_for(caps, ip, mode):
+        key = (caps.index, ip, mode)
         if key not in frame_cache:
-            frame_cache[key] = caps.frame(ip)
+            frame_cache[key] = caps.frames(ip, mode)
         return frame_cache[key]
 
     # ground-truth self test: the generated sets contain what the oracle relies on
@@ -497,7 +545,7 @@ def run(ctx):
             if ctx.shard == 0:
                 loop.run_until_complete(single_gateway_product(ctx, caps_list, frames))
                 ctx.exhaustive = True
-                ctx.extra["exhaustive_part"] = "432 capability sets x 37 filters x 7 keyring situations (single gateway); filter predicate on the same sets"
+                ctx.extra["exhaustive_part"] = "432 capability sets (the 120 Core-V2 ones in 3 answer modes: extended, legacy+extended, extended+legacy with failing secure attempt) x 37 filters x 7 keyring situations (single gateway); filter predicate on the same sets"
             loop.run_until_complete(gateway_sequences(ctx, caps_list, frames_for))
     finally:
         loop.run_until_complete(loop.shutdown_asyncgens())
@@ -517,7 +565,8 @@ def replay(ctx, witness):
         vals = [g[k] for k in keymap]
         caps = Caps(vals[0], vals[1], vals[2], vals[3], None if vals[4] is None else frozenset(vals[4]), vals[5], vals[6])
         ip = f"10.0.{pos}.2"
-        gateways.append((caps, ip, caps.frame(ip)))
+        mode = (witness.get("responses") or [None] * (pos + 1))[pos] or ("ext" if caps.extended else "legacy")
+        gateways.append((caps, ip, caps.frames(ip, mode)))
     outcomes = {g[1]: o for g, o in zip(gateways, witness["outcomes"], strict=True)}
     flags = tuple(witness["filter_flags(tunnelling,tunnelling_tcp,routing,secure_tunnelling,secure_routing)"])
     loop = asyncio.new_event_loop()
@@ -529,5 +578,5 @@ def replay(ctx, witness):
     ctx.ev()
     ctx.distinct(("replay", 1))
     ctx.distinct(("replay", 2))
-    print("replay log:", [e[:4] if e[0] == "start" else e[:2] for e in log], result)
+    print("replay log:", [e[:4] if e[0] == "start" else e[:3] for e in log], result)
     judge_log(ctx, log, gateways, flags, witness["filter_name"], witness["keyring"], outcomes, result)
